@@ -7,6 +7,7 @@ import CkcVerif.Model.Parse
 import CkcVerif.Model.Containers
 import CkcVerif.Spec.Layout
 import CkcVerif.Spec.Poker
+import CkcVerif.Spec.Names
 import CkcVerif.Lemmas.Abs
 /-!
 # Model driver: one request per line on stdin, one answer per line on stdout.
@@ -103,7 +104,8 @@ def enum5b (a : Nat) : String := Id.run do
           out := out ++ toString code ++ " "
   return out
 
-/-- spec-only oracle: every class with its position (1 = strongest) in the order by `Spec.strength` -/
+/-- spec-only oracle: every class with its position (1 = strongest) in the order by `Spec.strength`,
+    its strength, and the names of its category and class (`Spec.categoryName`, `Spec.specName`) -/
 def oracle5 : String := Id.run do
   let cs := Lemmas.classes.toArray
   let st := cs.map fun c => Spec.strength [c.1, c.2.1, c.2.2.1, c.2.2.2.1, c.2.2.2.2.1] c.2.2.2.2.2
@@ -118,7 +120,9 @@ def oracle5 : String := Id.run do
     while lo < hi do
       let mid := (lo + hi) / 2
       if sorted[mid]! > s then lo := mid + 1 else hi := mid
-    out := out ++ joinNats [c.1, c.2.1, c.2.2.1, c.2.2.2.1, c.2.2.2.2.1, boolNat c.2.2.2.2.2, lo + 1, s] ++ " "
+    let d := Spec.descrOfStrength s
+    out := out ++ joinNats [c.1, c.2.1, c.2.2.1, c.2.2.2.1, c.2.2.2.2.1, boolNat c.2.2.2.2.2, lo + 1, s] ++ " " ++
+      Spec.categoryName d.1 ++ " " ++ Spec.specName d ++ " "
   return out
 
 def histOps : List Nat → Option (List Op)
